@@ -400,5 +400,23 @@ theorem vstep_spec (g : Nat → Nat → Nat) (hg : ∀ n c, n ≤ g n c) {h : He
     obtain ⟨i, hi, rfl, rfl⟩ := hs
     obtain ⟨h', he, ho', hf⟩ := writeRef_spec hwf ho a x i hi
     exact ⟨h', v, by simp only [vstep, he, ok_bind, pure_eq_ok], ho', hf⟩
+  | insertSelf pos a b =>
+    simp only [svstep] at hs
+    split at hs
+    · next hp =>
+      simp only [Option.some.injEq, Prod.mk.injEq] at hs
+      obtain ⟨rfl, rfl⟩ := hs
+      simp only [vstep, insertSelf]
+      rw [if_neg (by omega), if_neg (by omega)]
+      by_cases hab : a = b
+      · rw [if_pos hab]
+        subst hab
+        refine ⟨h, v, rfl, ?_, Frame.refl hwf _⟩
+        simpa [insertAt_nil] using ho
+      · rw [if_neg hab]
+        obtain ⟨h', v', he, ho', hf⟩ := insertGen_spec g hg hwf ho pos hp.2.2 (.self a b) ((l.drop a).take (b - a))
+          (by simp only [Mid.den]; rw [if_pos ⟨hp.1, by omega⟩]) (fun a' b' heq => by cases heq; omega)
+        exact ⟨h', v', by simp only [he, ok_bind, pure_eq_ok], ho', hf⟩
+    · cases hs
 
 end Fcppt.C07
